@@ -77,6 +77,12 @@ func (c *caseRun) randomOp(nRemotes int) {
 	r := c.r
 	x := r.Intn(100)
 	switch {
+	case x < 2:
+		k := c.pick()
+		c.withRace(k, func() { c.doPut(k) })
+	case x < 4:
+		k := c.pick()
+		c.withRace(k, func() { c.doFetch(k) })
 	case x < 12:
 		c.doPut(c.pick())
 	case x < 22:
@@ -84,6 +90,8 @@ func (c *caseRun) randomOp(nRemotes int) {
 	case x < 30:
 		if c.w.fetchIdx < 0 {
 			c.doFetchStart(c.pick())
+		} else if r.Chance(25) {
+			c.withRace(c.w.fetchIdx, c.doFetchFinish)
 		} else {
 			c.doFetchFinish()
 		}
@@ -184,6 +192,20 @@ func (c *caseRun) scenario(id int) {
 		c.doPut(1)
 		c.doFetch(1)
 		c.doHead(0)
+	case 7: // deletion lands between the tombstone checks and the storage-creating transaction of a put
+		c.withRace(0, func() { c.doPut(0) })
+		c.doRun()
+		c.doFetch(0)
+		c.doRestart()
+	case 8: // … of a one-step remote fetch
+		c.withRace(0, func() { c.doFetch(0) })
+		c.doRun()
+		c.doFetch(0)
+	case 9: // … of the response of a parked fetch
+		c.doFetchStart(0)
+		c.withRace(0, c.doFetchFinish)
+		c.doRun()
+		c.doFetch(0)
 	case 6: // crash inside a worker pass: parent marked Deleted, bound children not yet handled
 		c.doPut(0)
 		c.doPut(1)
@@ -205,9 +227,12 @@ func (c *caseRun) scenario(id int) {
 }
 
 func Run(r *corr.Run) {
-	r.SetRule("a case = a fresh space (real any-store) with 3..6 objects (some bound to a parent), 1..2 remote settings authors, and a sequence of 20..60 steps from {put, fetch, fstart/ffin, edit, head, rec (plain/snapshot), xfer, deliver (closed prefix / arbitrary subset, shuffled), del, run, crash (worker pass cut after its first id, then restart), restart}; 7 scripted guard scenarios (fetch race, late child, restart between queued and deleted, snapshot root, tombstone before creation, deletion during a parked fetch, crash inside a worker pass) each continued randomly; non-trivial = a tombstone was reached; distinct = distinct model-protocol traces")
+	r.SetRule("a case = a fresh space (real any-store) with 3..6 objects (some bound to a parent), 1..2 remote settings authors, and a sequence of 20..60 steps from {put, fetch, fstart/ffin, edit, head, rec (plain/snapshot), xfer, deliver (closed prefix / arbitrary subset, shuffled), del, run, crash (worker pass cut after its first id, then restart), restart}; 10 scripted guard scenarios (fetch race, late child, restart between queued and deleted, snapshot root, tombstone before creation, deletion during a parked fetch, crash inside a worker pass, deletion landing right before the storage-creating transaction of a put / a fetch / a parked fetch's response) each continued randomly; non-trivial = a tombstone was reached; distinct = distinct model-protocol traces")
 	// scripted scenarios first (all parents variants relevant to them)
-	for id := 0; id < 7 && r.TimeLeft(); id++ {
+	for _, id := range []int{7, 8, 9, 0, 1, 2, 3, 4, 5, 6} {
+		if !r.TimeLeft() {
+			break
+		}
 		for variant := 0; variant < 2; variant++ {
 			parents := []int{-1, 0, 0, -1}
 			if variant == 1 {
